@@ -809,8 +809,9 @@ func (tx *OngoingTx) checkPreconditions(ctx context.Context, st *ImmuStore) erro
 
 	for _, txSnap := range tx.snapshots {
 		if txSnap.Ts() > st.LastPrecommittedTxID() {
-			// read-write transactions when no other transaction was committed won't be invalidated
-			return nil
+			// no other transaction was committed since this snapshot was taken: what was read from it is still valid.
+			// Snapshots of other indexes may be older and still have to be validated
+			continue
 		}
 
 		// current snapshot is fetched without flushing
